@@ -47,7 +47,7 @@ theorem runList_append (xs ys : List MicroOp) (r : Regs) (m : Flat) :
 theorem runList_take_succ (ops : List MicroOp) (k : Nat) (h : k < ops.length) (r : Regs) (m : Flat) :
     runList (ops.take (k + 1)) r m =
       (ops[k]).run (runList (ops.take k) r m).1 (runList (ops.take k) r m).2 := by
-  rw [List.take_succ, runList_append]
+  rw [List.take_add_one, runList_append]
   simp [List.getElem?_eq_getElem h]
 
 /-! ### `exited` is only set by `fatal` -/
@@ -87,7 +87,7 @@ theorem run_exited (μ : MicroOp) (h : μ ≠ .fatal) (r : Regs) (m : Flat) :
   | alu op s => cases s <;> simp [MicroOp.run]
   | inc16 k => cases k <;> simp [MicroOp.run, inc16F, incSP]
   | dec16 k => cases k <;> simp [MicroOp.run, dec16F, decSP]
-  | _ => simp [MicroOp.run, inc16F, dec16F, incSP, decSP, addHLF, addSPF, ldHLSPF, bitTest, rstTo,
+  | _ => simp [MicroOp.run, inc16F, dec16F, incSP, addHLF, addSPF, ldHLSPF, bitTest, rstTo,
                Regs.setZf, Regs.setNf, Regs.setHf, Regs.setCf]
 
 theorem runList_exited (ops : List MicroOp) (h : MicroOp.fatal ∉ ops) (r : Regs) (m : Flat) :
@@ -296,7 +296,7 @@ theorem checkInterrupts_none (t : Tables) (r : Regs) (m : Flat) (hh : r.halted =
       cases h : m.ime
       · rfl
       · exact absurd ⟨h1, h⟩ hp
-    simp [h1, this, hh]
+    simp [this, hh]
 
 theorem next_fetch (t : Tables) (c : Cpu) (m : Flat) (h : AtFetch c m) :
     next t c m = fetch t c c.regs m := by
